@@ -15,7 +15,7 @@ func TestVerif_C01_Router(t *testing.T) {
 	r := kit.Start(t, "C01")
 	defer r.Finish()
 	r.Rule("seeded rule sets (1-4 rules x 1-4 paths over small alphabets: host/hostRegexp, exact/prefix/regexp paths, method lists, header value/regexp matchers with and without matchAllHeader, rewrite targets incl. $n groups, shadowing duplicates, unknown backends) x 40 requests each (host with/without port, absent headers, unlisted methods); every request is served by the real mux.ServeHTTP and by an independent reference router; distinct = (status, decision reason, winning rule/path index, host matcher kind, rewrite mode)")
-	r.Assume("header matchers carry either values or a regexp; request headers are single-valued; rewriteTarget entries have exactly one path matcher; no IPv6 literal hosts; no /.well-known/acme-challenge/ paths")
+	r.Assume("header matchers carry either values or a regexp; request headers are single-valued; an entry may carry several path matchers; its rewritten path is judged when exactly one of them matches the request (when several match, the governing one is left open); no IPv6 literal hosts; no /.well-known/acme-challenge/ paths")
 	nSets := r.N(400, 20000)
 	const reqPerSet = 40
 	missing := map[string]bool{"gone": true}
@@ -53,7 +53,7 @@ func TestVerif_C01_Router(t *testing.T) {
 				bad = fmt.Sprintf("status:got%d-want%d", got.Status, want.Out.Status)
 			case want.Out.Status == 200 && got.Backend != want.Out.Backend:
 				bad = "backend"
-			case want.Out.Status == 200 && got.Path != want.Out.Path:
+			case want.Out.Status == 200 && want.Rewrite != "ambiguous" && got.Path != want.Out.Path:
 				bad = "rewritten-path:" + want.Rewrite
 			case want.Out.Status == 200 && got.Host != want.Out.Host:
 				bad = "host-seen-by-backend"
@@ -73,7 +73,7 @@ func TestVerif_C01_Router(t *testing.T) {
 		}
 		m.close()
 	}
-	for _, k := range []string{"status_200", "status_400", "status_404", "status_405", "status_503", "rewrite_exact", "rewrite_prefix", "rewrite_regexp"} {
+	for _, k := range []string{"status_200", "status_400", "status_404", "status_405", "status_503", "rewrite_exact", "rewrite_prefix", "rewrite_regexp", "rewrite_ambiguous"} {
 		r.Require(k, 1)
 	}
 }
